@@ -385,6 +385,7 @@ func checkC05(c *Ctx) {
 	rules := map[string]bool{"TV-compile": true, "TV-determ": true, "TV-fields": true, "TV-shred": true, "TV-asm": true}
 	programs, cases, typeErr, genFail := emitTV(r, res, rules, nil)
 	checkGenMapRanges(c)
+	runTagVariants(c, res)
 	withTC(c, "TV-driver", nil, func(c2 *Ctx) { runTVDriver(c2, "TV-driver") })
 	r.Explanation = "Translation validation of parquetgen's output, program by program over the bounded struct grammar (" + desc + "): each struct is fed to the working tree's parquetgen; the generated file must parse and type-check against today's runtime (TV-compile), be reproduced byte for byte by a second run (TV-determ), list the struct's columns one to one in Fields() (TV-fields); every column's shredder is abstractly interpreted into a decision tree over nil/empty tests and compared with the canonical Dremel shredder computed from the struct's go/types description (TV-shred); every column's assembler is checked case by case (def, rep) against the required effect — no clobber of nodes materialised earlier, no dangling access, exact creation, right indices, coverage and value counting (TV-asm). Each obligation covers ALL record values of its shape; the quantifier over shapes is discharged by enumeration."
 	r.Extra["programs"] = programs
@@ -398,6 +399,59 @@ func checkC05(c *Ctx) {
 	r.floor("TV/programs", 400, "quick tier corpus size")
 	r.assume("TV-asm relies on the drivers checked by TV-driver on the template-coverage packages: indices.rep, per-column consumption in Scan, column order in ParquetReader.Scan")
 	r.assume("shapes outside the grammar (depth > 3, > 2 children per group, leaf types other than int32 below the root) are not covered")
+}
+
+// runTagVariants (TV-tags, C05): how a column is named is part of the documented input language — the `parquet` key of
+// the struct tag wherever it stands among other keys, the field name when there is no such key. Per sampled base shape:
+// the program for the struct with noisy tags is the base program; the program for the untagged struct is the program
+// for the struct whose tags spell out the field names.
+func runTagVariants(c *Ctx, base []shapeResult) {
+	r := c.R
+	cp, err := newCorpus(c.U)
+	if err != nil {
+		r.failf("corpus: %v", err)
+		return
+	}
+	step := 8
+	if c.Tier == "thorough" {
+		step = 1
+	}
+	var items []corpusItem
+	var bases []*shapeResult
+	for i := range base {
+		b := &base[i]
+		if i%step != 0 || b.text == nil || len(b.item.shape) == 0 {
+			continue
+		}
+		bases = append(bases, b)
+		for _, m := range []int{4, 5, 6} {
+			items = append(items, corpusItem{key: fmt.Sprintf("%s + tags%d", b.item.key, m), src: b.item.shape.SourceDeco("s", m, -1), shape: b.item.shape})
+		}
+	}
+	res := cp.runAll(items, false)
+	for i, b := range bases {
+		noisy, untagged, spelled := res[3*i], res[3*i+1], res[3*i+2]
+		r.count("TV-tags/pairs", 2)
+		key := b.item.key + " tag among other keys"
+		switch {
+		case noisy.text == nil:
+			r.bad("TV-tags", key, "", "parquetgen fails when the parquet key stands between other tag keys: "+oneLine(noisy.genOut))
+		case !bytes.Equal(normHeader(noisy.text), normHeader(b.text)):
+			r.bad("TV-tags", key, "", "with `json:\"…\" parquet:\"name\" db:\"-\"` the generated program differs from the one for `parquet:\"name\"` (columns "+programColumns(noisy.text)+", expected "+programColumns(b.text)+"): the parquet key is not found among other keys")
+		default:
+			r.ok("TV-tags", key, "", "same program as with the parquet key alone")
+		}
+		key = b.item.key + " untagged"
+		switch {
+		case untagged.text == nil || spelled.text == nil:
+			r.bad("TV-tags", key, "", "parquetgen fails on the untagged struct or on the struct tagged with its field names: "+oneLine(untagged.genOut+spelled.genOut))
+		case !bytes.Equal(normHeader(untagged.text), normHeader(spelled.text)):
+			r.bad("TV-tags", key, "", "without tags the columns are "+programColumns(untagged.text)+", expected the field names "+programColumns(spelled.text))
+		default:
+			r.ok("TV-tags", key, "", "an untagged field's column is named after the field")
+		}
+	}
+	r.floor("TV-tags/pairs", 40, "quick tier sample")
 }
 
 func checkC03(c *Ctx) {
